@@ -2,7 +2,7 @@ SPECIFICATION Spec
 CONSTANTS
   NRules = 2
   PhaseSet = {1, 4}
-  Lines = {1, 2}
+  Lines = {1}
   LinesIgnored = FALSE
   OffByOne = FALSE
 INVARIANT Inv_C13_FixPhase
